@@ -15,6 +15,7 @@ struct obj {
 	int comp;
 	int fd;
 	int is_null;        /* iterator: library returned NULL */
+	int truncate_at_fin; /* writer: bytes followed the initial offset; cut the file at the writer's end */
 };
 extern struct obj objs[];
 extern const char *vf_tmpdir;
